@@ -153,7 +153,10 @@ class Session:
         aid = bytes(idv[1]).decode()
         rec = self.asserts.setdefault(aid, [0, 0])
         e10 = sgn(e10, 64)
-        res = check_rounded(self, st, man, e10, neg, bits)
+        if bits.__class__ is tuple and bits[0] == 'FX':
+            res = ex.fx.check_result(st, man, e10, neg, bits)
+        else:
+            res = check_rounded(self, st, man, e10, neg, bits)
         self.obligations = getattr(self, 'obligations', 0) + len(res)
         ok = True
         for verdict, info in res:
@@ -175,6 +178,11 @@ class Session:
         if ok:
             rec[0] += 1
         return None
+
+    def use_fx_model(self):
+        from .fxmodel import FxModel
+        self.ex.fx = FxModel(self)
+        self.ex.lazy_forks = True
 
     def use_float_contract(self):
         """replace fp.ParseJSONFloatPrefix by the harness contract vFloatStub"""
@@ -286,21 +294,21 @@ class Session:
     def model_for(self, st):
         """decide feasibility of a terminal state with the solver and extract a model.
         returns (verdict, assignment var idx -> int)"""
-        return self.model_pc(st.pc, st.extras)
+        return self.model_pc(st.pc, st.extras, raw=st.raw)
 
-    def model_pc(self, pc, extras, quick=False):
+    def model_pc(self, pc, extras, quick=False, raw=()):
         if quick and any(e.hard for e in extras):
             # sample extraction must not cost more than the proof obligations: short timeout
             sv = self.ex.solver.lia.s
             sv.set('timeout', 1500)
             try:
-                r = self.ex.solver.check(pc, extras, ())
+                r = self.ex.solver.check(pc, extras, (), raw)
             finally:
                 sv.set('timeout', self.ex.solver.timeout_ms)
             if r != 'sat':
                 return r, None
             return r, self.ex.solver.model_assign()
-        r = self.ex.solver.check(pc, extras, ())
+        r = self.ex.solver.check(pc, extras, (), raw)
         if r != 'sat':
             return r, None
         return r, self.ex.solver.model_assign()
@@ -419,6 +427,25 @@ def native_replay(cases, pkgdir='.', timeout=600, extra_files=None, scale_depth=
         if not res and r.returncode != 0:
             raise ToolError('native replay failed to run:\n' + r.stdout[-2000:] + r.stderr[-2000:])
         return res
+    finally:
+        shutil.rmtree(work, ignore_errors=True)
+
+
+def run_refvalidate(full=False, timeout=600):
+    """validate the Go reference models against encoding/json, strconv, unicode/utf8 (native)"""
+    work = tempfile.mkdtemp(prefix='verif-refval-')
+    try:
+        ovf = os.path.join(work, 'overlay.json')
+        with open(ovf, 'w') as f:
+            json.dump({'Replace': harness_overlay()}, f)
+        r = subprocess.run(['go', 'test', '-tags', 'verif verifnative', '-overlay', ovf, '-vet=off', '-count=1', '-v', '-run', '^TestVerifRefValidate$', '.'],
+                           cwd=REPO, env=dict(GOENV, VERIF_REF_FULL='1' if full else '0'), capture_output=True, text=True, timeout=timeout)
+        for line in r.stdout.splitlines():
+            if line.startswith('VERIF-REFVALIDATE'):
+                return {'ok': r.returncode == 0, 'summary': line[len('VERIF-REFVALIDATE '):]}
+        return {'ok': False, 'summary': (r.stdout + r.stderr)[-600:]}
+    except Exception as e:
+        return {'ok': False, 'summary': 'could not run: %s' % e}
     finally:
         shutil.rmtree(work, ignore_errors=True)
 
